@@ -355,8 +355,16 @@ fn format(
         } else {
             // Check the file directory if the config-path could not be read or not provided
             if config_path.is_none() {
+                // A broken config found via this file's directory fails this file only.
                 let (local_config, config_path) =
-                    load_config(Some(file.parent().unwrap()), Some(options.clone()))?;
+                    match load_config(Some(file.parent().unwrap()), Some(options.clone())) {
+                        Ok(loaded) => loaded,
+                        Err(e) => {
+                            eprintln!("{e:#}");
+                            session.add_operational_error();
+                            continue;
+                        }
+                    };
                 if local_config.verbose() == Verbosity::Verbose {
                     if let Some(path) = config_path {
                         println!(
